@@ -17,6 +17,9 @@ fn main() {
         let idx = args.get(2).and_then(|s| s.parse::<usize>().ok()).unwrap_or(usize::MAX);
         std::process::exit(props::c16::child_first(idx));
     }
+    if args[1] == "__genlimit" {
+        std::process::exit(props::c15::child_genlimit(args.get(2).map(|s| s.as_str()).unwrap_or("."), args.get(3).and_then(|s| s.parse().ok()).unwrap_or(0)));
+    }
     if args[1] == "__tlsdtor" {
         let g = |i: usize| args.get(i).and_then(|s| s.parse::<usize>().ok()).unwrap_or(0);
         std::process::exit(props::c01::child_tls_dtor(g(2), g(3)));
